@@ -38,6 +38,9 @@ def run(rep, tier):
                       "queue hands out the oldest edge of the oldest level and only queues edges that lead to unexplored vertices")
     rep.rule("R16.6", "findStructureId: every candidate start vertex is explored on its own fresh copy of the input graph (declared inside the candidate loop, "
                       "initialised from the parameter, which is not written before the loop ends), with its own visitor; the id kept is the largest")
+    rep.rule("R16.7", "breadth-first order (necessary for shortest-path distance labels): getEdge_ takes the oldest edge of the front level queue and drops that queue "
+                      "when it runs empty; addEdges_ never appends to the level queue being drained (the front one): edges of unexplored neighbours go to a fresh queue "
+                      "pushed to the back (fewer than two level queues) or to the second queue (two level queues)")
     rep.rule("R16.5", "singleNetwork: true exactly when the exploration reached every vertex and no node is isolated; the exploration runs first")
     units = [front.repo("tools/src/libtools/" + u) for u in ("graph.cc", "graphnode.cc", "graphalgorithm.cc", "graphvisitor.cc", "graph_bf_visitor.cc",
                                                              "graphdistvisitor.cc")] + [front.repo("csg/src/libcsg/beadstructure.cc")]
@@ -286,6 +289,7 @@ def run(rep, tier):
                 if (c[0] == "<" and cmp_.startswith("compare(%s," % sym)) or (c[0] == ">" and cmp_.startswith("compare(") and cmp_.rstrip(")").endswith(str(sym))):
                     okm = True
         rep.check(okm, "R16.6", "largest-id-wins", "the lexicographically largest candidate id is kept", "findStructureId does not keep the largest id over the candidates", f.loc())
+    check_bfs(rep, F)
     rep.assumptions += ["std::sort orders by the comparator given; std::unordered_map iteration order is arbitrary",
                         "completeness of the traversal (every reachable vertex is visited), connected-component extraction, reduce/expand round trips and the "
                         "choice among equal-degree start vertices are NOT decided: they depend on queue dynamics over arbitrary graphs"]
@@ -328,3 +332,78 @@ def sorted_before_concat(f, F):
                 and n["id"] in g.where and g.dominates(s0["id"], n["id"]):
             return False, "the sequence is modified after it was sorted"
     return True, ""
+
+
+def check_bfs(rep, F):
+    BF = T + "Graph_BF_Visitor::"
+    ae, ge = F.one(BF + "addEdges_"), F.one(BF + "getEdge_")
+    rep.analysed(ae); rep.analysed(ge)
+    RC = r"::push$|::push_back$|::emplace$|::emplace_back$|::push_front$|::pop$|::pop_front$|::pop_back$"
+    fa = Fold(ae, record_calls=RC, opaque_types=r"std::queue<|std::vector<").run()
+    ca = getattr(fa, "conds", {})
+    QS, Qsz = S("edge_que_"), Fn("size")(S("edge_que_"))
+
+    def orc(lf):
+        if lf == Fn("empty")(QS) or str(lf) == "empty(edge_que_)":
+            return ("EMPTY", True)
+        if isinstance(lf, tuple) and len(lf) == 3 and lf[0] in ("==", "!=") and str(getattr(lf[1], "func", "")) == "count" and "explored_" in str(lf[1]) and lf[2] in (0, 1):
+            return ("NEW", (lf[0] == "==") == (lf[2] == 0))
+        if isinstance(lf, sp.Basic) and str(getattr(lf, "func", "")) == "empty" and lf.args and str(lf.args[0]) != "edge_que_":
+            return ("LOCAL_EMPTY", True)
+        return None
+    ok, why = True, ""
+    pushes = [e for e in fa.events if e["kind"] == "call" and e["callee"].split("::")[-1] in ("push", "emplace") and e["obj"] is not None and str(e["obj"]) != "edge_que_"]
+    appends = [e for e in fa.events if e["kind"] == "call" and str(e["obj"]) == "edge_que_"]
+    rep.floor("R16.7", len(pushes), 1, "edge pushes in addEdges_")
+    for k in (0, 1, 2):
+        A = {"EMPTY": k == 0, "NEW": True, "LOCAL_EMPTY": False}
+        sub = {Qsz: sp.Integer(k)}
+        hit = []
+        for e in pushes:
+            x = executes(e, sub, A, orc, ca)
+            if x is None:
+                ok, why = False, "cannot decide whether the push at line %s runs with %d level queues" % (e["node"].get("line"), k)
+                break
+            if x:
+                hit.append(e)
+        if not ok:
+            break
+        if len(hit) != 1:
+            ok, why = False, "with %d level queue(s) the edge of an unexplored neighbour is pushed %d times" % (k, len(hit))
+            break
+        tgt = str(hit[0]["obj"])
+        if k < 2:
+            # a queue of its own, appended behind the existing ones
+            app = [e for e in appends if executes(e, sub, A, orc, ca)]
+            good = "edge_que_" not in tgt and len(app) == 1 and app[0]["callee"].split("::")[-1] in ("push_back", "emplace_back") and [str(a) for a in app[0]["args"]] == [tgt]
+            if not good:
+                ok, why = False, "with %d level queue(s) the new edges go to %s and edge_que_ is extended by %s: they must start a queue of their own behind the one being drained" % (
+                    k, tgt, [(e["callee"].split("::")[-1], [str(a) for a in e["args"]]) for e in app])
+                break
+        else:
+            if tgt not in ("at(edge_que_, 1)", "back(edge_que_)"):
+                ok, why = False, "with two level queues the new edges are pushed to %s: edges of a deeper level overtake pending shallower ones (not the second queue), so distance labels exceed the shortest path" % tgt
+                break
+    rep.check(ok, "R16.7", "bfs|enqueue", "new edges never join the level queue being drained", "Graph_BF_Visitor::addEdges_: " + why, ae.loc(), sample=True)
+    fg = Fold(ge, record_calls=RC).run()
+    cg = getattr(fg, "conds", {})
+    front0 = Fn("at")(QS, 0)
+    rets = [e for e in fg.events if e["kind"] == "return"]
+    pops = [e for e in fg.events if e["kind"] == "call" and e["callee"].split("::")[-1] == "pop"]
+    drops = [e for e in fg.events if e["kind"] == "call" and str(e["obj"]) == "edge_que_"]
+    isfront = lambda v: str(v) in ("at(edge_que_, 0)", "front(edge_que_)")
+
+    def orc2(lf):
+        if isinstance(lf, tuple) and len(lf) == 3 and lf[0] in ("==", "!=") and str(getattr(lf[1], "func", "")) == "size" and isfront(lf[1].args[0]) and lf[2] == 0:
+            return ("DRAINED", lf[0] == "==")
+        if isinstance(lf, sp.Basic) and str(getattr(lf, "func", "")) == "empty" and isfront(lf.args[0]):
+            return ("DRAINED", True)
+        return None
+    okg = len(rets) == 1 and str(getattr(rets[0]["value"], "func", "")) == "front" and isfront(rets[0]["value"].args[0]) and len(pops) == 1 and isfront(pops[0]["obj"]) and not pops[0]["guards"]
+    whyg = "it returns %s and pops %s" % ([str(r_["value"]) for r_ in rets], [str(p_["obj"]) for p_ in pops])
+    if okg:
+        for dr in (True, False):
+            d_ = [e for e in drops if executes(e, None, {"DRAINED": dr}, orc2, cg)]
+            if (len(d_) == 1 and d_[0]["callee"].split("::")[-1] == "pop_front") != dr or (not dr and d_):
+                okg, whyg = False, "with the front level queue %s it modifies edge_que_ by %s" % ("drained" if dr else "not drained", [e["callee"].split("::")[-1] for e in d_])
+    rep.check(okg, "R16.7", "bfs|dequeue", "oldest edge of the front level queue; the queue is dropped when drained", "Graph_BF_Visitor::getEdge_: " + whyg, ge.loc(), sample=True)
